@@ -44,9 +44,31 @@ def c01(p, obs, cycle_k=5):
     return out
 
 
+def failing_dropped_tails(p, acc=None):
+    """exception names raised by examples in the dropped tail of a `batch(n, drop_last=True)` anywhere in
+    `p`: indexing such a batch (or anything stacked on it) at or past its end walks into that tail and
+    surfaces ITS exception where a plain list would say IndexError; the batch's own iteration raises the
+    same exception (DESIGN.md section 8, "looked at and not counted": C02_batch_droplast_tail_counterexample)"""
+    acc = acc if acc is not None else set()
+    if p['op'] == 'batch' and p.get('dropLast') and p.get('n', 0) >= 1:
+        r = _ref(p['p'])
+        if r is not None and r.outs is not None:
+            full = (len(r.outs) // p['n']) * p['n']
+            acc.update(o[1] for o in r.outs[full:] if o[0] == 'err')
+        elif r is not None and r.stream[1] is not None:
+            acc.add(r.stream[1])
+    for k in ('p',):
+        if k in p:
+            failing_dropped_tails(p[k], acc)
+    for q in p.get('ps', []):
+        failing_dropped_tails(q, acc)
+    return acc
+
+
 def c02(p, obs):
     """len / integer indexing agree with iteration (finite datasets)"""
     out = []
+    tails = failing_dropped_tails(p)
     if obs.get('build') != 'ok' or p['op'] == 'cycle':
         return out
     it = obs['iter']
@@ -68,6 +90,8 @@ def c02(p, obs):
         if i >= n or i < -n:
             # a dataset whose iteration itself refuses (e.g. items() without keys) must still
             # not hand out an example; IndexError is demanded wherever iteration works
+            if got.get('err') in tails:
+                continue
             if (got != {'err': 'IndexError'}) if it['err'] is None else ('ok' in got):
                 out.append(('out_of_range_IndexError', {'i': i, 'n': n, 'got': got}))
             continue
@@ -76,9 +100,9 @@ def c02(p, obs):
             if j < len(it['vals']):
                 if got != {'ok': it['vals'][j]}:
                     out.append(('getitem_eq_iter', {'i': i, 'n': n, 'got': got, 'iter': it['vals'][j]}))
-            elif outs is not None and got != outs[j]:
+            elif outs is not None and got != outs[j] and got.get('err') not in tails:
                 out.append(('getitem_eq_ref', {'i': i, 'got': got, 'ref': outs[j]}))
-        elif outs is not None and got != outs[j]:
+        elif outs is not None and got != outs[j] and got.get('err') not in tails:
             out.append(('getitem_eq_ref', {'i': i, 'got': got, 'ref': outs[j]}))
     return out
 
